@@ -53,6 +53,9 @@ pub fn answer_for(step: &Value) -> Value {
         }
         "pay" => {
             let oc = step["outcome"].as_str().unwrap_or("failed");
+            if oc == "error:none" {
+                return json!({"error": {"message": "no response from lightningd"}});
+            }
             if oc.starts_with("error") {
                 let code: i64 = oc.split(':').nth(1).and_then(|x| x.parse().ok()).unwrap_or(210);
                 return json!({"error": {"code": code, "message": "pay failed"}});
@@ -63,6 +66,8 @@ pub fn answer_for(step: &Value) -> Value {
                 "parts": 1, "amount_msat": 0, "amount_sent_msat": 0, "status": status});
             if oc == "failed_warning" {
                 r["warning_partial_completion"] = json!("partial");
+            } else if oc == "failed_warning_empty" {
+                r["warning_partial_completion"] = json!("");
             }
             json!({"result": r})
         }
@@ -103,6 +108,13 @@ pub fn run(input: &Value) -> Value {
         });
         let mut notes = vec![];
         for step in input["steps"].as_array().cloned().unwrap_or_default() {
+            if let Some(ms) = step["advance_ms"].as_u64() {
+                // a timer of the code under test fires: move the paused clock
+                for _ in 0..5 { settle().await; std::thread::sleep(Duration::from_micros(200)); }
+                tokio::time::advance(Duration::from_millis(ms)).await;
+                for _ in 0..5 { settle().await; std::thread::sleep(Duration::from_micros(200)); }
+                continue;
+            }
             let method = match step["method"].as_str() {
                 Some(m) => m.to_string(),
                 None => continue,
